@@ -19,7 +19,7 @@ import (
 
 type astIdent = ast.Ident
 
-var buildBodies = map[string]bool{"encoding/binary": true, "k8s.io/apimachinery/pkg/util/sets": true}
+var buildBodies = map[string]bool{"encoding/binary": true, "k8s.io/apimachinery/pkg/util/sets": true, "k8s.io/apimachinery/pkg/apis/meta/v1": true}
 
 type Loaded struct {
 	fset             *token.FileSet
